@@ -72,9 +72,13 @@ type tcase struct {
 	// test@example.net during negotiation (as resource binding does): stanzas
 	// from example.org are then from somebody else
 	addrChanged bool
-	reg         map[string]bool // "type|space|local" registered in the mux
-	elems       []elem
-	closeIt     bool
+	// the session was negotiated by the websocket package's negotiator
+	// (WebSocket framing: the stream header's namespace is the framing
+	// namespace, every stanza declares its own); "" | "initiated" | "received"
+	ws      string
+	reg     map[string]bool // "type|space|local" registered in the mux
+	elems   []elem
+	closeIt bool
 }
 
 func key(typ string, n xml.Name) string { return typ + "|" + n.Space + "|" + n.Local }
@@ -145,6 +149,10 @@ func genWrites(t *rapid.T, e elem, ns string) []write {
 func genCase(t *rapid.T) tcase {
 	tc := tcase{s2s: rapid.Bool().Draw(t, "s2s"), useMux: rapid.Bool().Draw(t, "mux"), reg: map[string]bool{}}
 	tc.addrChanged = rapid.IntRange(0, 2).Draw(t, "addrChanged") == 0
+	if rapid.IntRange(0, 3).Draw(t, "ws") == 0 {
+		tc.ws = rapid.SampledFrom([]string{"initiated", "received"}).Draw(t, "wsRole")
+		tc.s2s, tc.addrChanged = false, false
+	}
 	ns := stanza.NSClient
 	if tc.s2s {
 		ns = stanza.NSServer
@@ -202,6 +210,12 @@ func genCase(t *rapid.T) tcase {
 			e.hasFrom, e.from = true, "example.org"
 		case 3:
 			e.hasFrom, e.from = true, "test@example.net" // own bare address
+			if tc.ws != "" {
+				// (with WebSocket framing the serve loop compares stanza names with
+				// the header's namespace and normalizes nothing: C08 is stated for
+				// the client and server stream namespaces)
+				e.from = "test@example.net/other"
+			}
 		case 4:
 			if rapid.Bool().Draw(t, "badfrom") {
 				e.hasFrom, e.from, e.badFrom = true, "@@bad/", true
@@ -258,7 +272,7 @@ func (tc tcase) ns() string {
 
 func (tc tcase) String() string {
 	var sb strings.Builder
-	fmt.Fprintf(&sb, "s2s=%v mux=%v own-request-%q-outstanding=%v address-assigned-during-negotiation(created as example.org)=%v", tc.s2s, tc.useMux, outstandingID, tc.outstanding, tc.addrChanged)
+	fmt.Fprintf(&sb, "s2s=%v mux=%v own-request-%q-outstanding=%v address-assigned-during-negotiation(created as example.org)=%v websocket-session=%q", tc.s2s, tc.useMux, outstandingID, tc.outstanding, tc.addrChanged, tc.ws)
 	if tc.useMux {
 		var ks []string
 		for k := range tc.reg {
@@ -478,14 +492,25 @@ func check(t interface {
 		opts.Local = jid.MustParse("test@example.net")
 		opts.Origin = jid.MustParse("example.org")
 	}
+	if tc.ws != "" {
+		opts.WS, opts.Negotiated = true, tc.ws
+	}
 	ns := tc.ns()
 	conn := wire.NewConn()
 	conn.FeedString(opts.Header())
 	for _, e := range tc.elems {
-		conn.Feed(e.node.Bytes(ns))
+		if tc.ws != "" {
+			conn.Feed(e.node.Bytes("")) // every element declares its namespace
+		} else {
+			conn.Feed(e.node.Bytes(ns))
+		}
 	}
 	if tc.closeIt {
-		conn.FeedString("</stream:stream>")
+		if tc.ws != "" {
+			conn.FeedString(`<close xmlns="` + wire.WSNS + `"/>`)
+		} else {
+			conn.FeedString("</stream:stream>")
+		}
 	}
 	conn.CloseInput()
 	s, err := wire.ReadySession(conn, opts)
@@ -577,6 +602,10 @@ func check(t interface {
 	for _, it := range items {
 		switch it.Kind {
 		case "element":
+			if it.Node.Name.Space == wire.WSNS && it.Node.Name.Local == "close" {
+				closes++
+				continue
+			}
 			if it.Node.Name.Space == wire.StreamNS && it.Node.Name.Local == "error" {
 				sawStreamErr = true
 				continue
@@ -689,6 +718,9 @@ func classify(tc tcase) (bool, []string) {
 	}
 	if tc.s2s {
 		classes = append(classes, "s2s")
+	}
+	if tc.ws != "" {
+		classes = append(classes, "websocket-session-"+tc.ws)
 	}
 	if tc.addrChanged {
 		classes = append(classes, "address-assigned-during-negotiation")
